@@ -501,6 +501,19 @@ func (f *Frame) execInstr(st *State, in ssa.Instruction) *State {
 			bs = append(bs, f.val(b))
 		}
 		f.regs[x] = Value{T: id, Fn: fn, Bindings: bs}
+		if cc := vc.p.contractFor(fn); cc != nil && len(cc.CapReq) > 0 {
+			// the closure's assumptions about captured variables must hold where it is created
+			sc := vc.entryScope()
+			sc.st, sc.frame = st, f
+			for _, r := range cc.CapReq {
+				parts, ok := vc.trGoal(sc, r)
+				if ok {
+					for _, g := range parts {
+						vc.oblige(st, "closure", "make:"+fn.Name()+":"+r.Name+g.label, g.t, nil, "captured-variable precondition of closure "+fn.Name()+": "+g.src, x.Pos())
+					}
+				}
+			}
+		}
 	case *ssa.ChangeType:
 		v := f.val(x.X)
 		f.regs[x] = v
@@ -1006,4 +1019,5 @@ func (f *Frame) execSelect(st *State, x *ssa.Select) {
 		}
 	}
 	f.regs[x] = Value{Tuple: tup}
+	st.SetHeap("sel!last", idx)
 }
